@@ -1,8 +1,9 @@
 (* Extraction of the C17 models (jsonString, the JSON recogniser, the template checker).
    ExtrOcamlBasic only: N / positive / nat / Z stay Coq datatypes. *)
 From Coq Require Import Extraction ExtrOcamlBasic.
-From T38 Require Import Base.Bytes Base.Utf8 Model.Json Model.Templates Model.WsFrame Model.RespOut Model.JsonScan Model.JsonMode Model.Mvt.
+From T38 Require Import Base.Bytes Base.Utf8 Model.Json Model.Templates Model.WsFrame Model.RespOut Model.JsonScan Model.JsonMode Model.Mvt Model.ClientList.
 From T38 Require Gen.Templates.  (* the base64 encodings named by the two MVT sites: rebuild when coq/Gen changes *)
 Extraction Language OCaml.
 Extraction "model.ml" Z.add Z.of_N Nat.add json_string valid_json tmpl_ok is_int_text string_safe ws_header ws_decode resp_parse resp_print resp_in_image render_json render_resp proj_json proj_resp abs_of serve sub_msg
-  mvt_member mvt_http decode encode Gen.Templates.mvt_json_encoding Gen.Templates.mvt_http_decoding.
+  mvt_member mvt_http decode encode Gen.Templates.mvt_json_encoding Gen.Templates.mvt_http_decoding
+  json_entries cut_first.
